@@ -14,17 +14,17 @@ PURE = "executions only; CPython 3.12 of /venv; no external tool involved"
 CHECKS = {
     "C01": ("exploration", "mutation workload on signed documents + identity-provenance oracle on the API boundary + structural oracle over the tool event log",
             "Delivers every mutant of the operator catalogue (edits, comments, signature/reference/ID games, XSW wrapping; plain and "
-            "re-encrypted) of validly signed responses to every signature-requiring SP setting. An accepted mutant must report exactly the "
+            "re-encrypted, attacker-made ciphertext in every slot beside the genuine encrypted assertion) of validly signed responses to every signature-requiring SP setting. An accepted mutant must report exactly the "
             "signed identity, and every successful verification the tool performed for it must have vouched for an element that directly "
             "carries exactly one enveloped signature referencing its own ID.",
             TRUST, "3/C01"),
     "C02": ("exploration", "runtime oracle on the API boundary + offline check of the tool event log, exhaustive finite table",
-            "Runs the whole documented option x signed-layout x plain/encrypted x corruption table through the real "
+            "Runs the whole documented option x signed-layout x plain/encrypted x corruption table (again for issuers without a verification key in metadata) through the real "
             "Saml2Client and compares accept/reject with an independent truth table in both directions; the driver's "
             "event log must show a genuine successful verification for every signature present in an accepted cell.",
             TRUST, "3/C02"),
     "C03": ("exploration", "generated federation + outcome oracle + trace oracle over the tool event log (which certificates were tried)",
-            "Hand-written metadata for IdPs with signing-only, signing+encryption, use-less, encryption-only and several signing certificates and an "
+            "Hand-written metadata for IdPs with signing-only, signing+encryption, use-less, encryption-only, several, expired and not-yet-valid signing certificates and an "
             "unknown issuer; every pairing of claimed issuer x actual signing key x embedded certificate x level x only_use_keys_in_metadata (and "
             "assertions naming another issuer than the response) is delivered; accept/reject is compared with the documented rule and the driver log "
             "must show that no certificate outside the issuer's signing-capable metadata keys (or, with the option off and no such key, the embedded "
@@ -32,7 +32,7 @@ CHECKS = {
             TRUST, "3/C03"),
     "C04": ("exploration", "virtual clock + edge-grid workload + independent xs:dateTime oracle (must-reject / must-accept / unspecified)",
             "Under a virtual clock, rewrites every time bound of an IdP-made response (each subset of optional bounds present), places one bound at "
-            "offsets 1, 2 and far beyond/inside its edge widened by allowances 0..1e7 in several timestamp spellings, and compares accept/reject with "
+            "offsets 1, 2 and far beyond/inside its edge widened by allowances 0..1e7 in several timestamp spellings, under several process time zones, and with several confirmations/statements/assertions of which one is out of range, and compares accept/reject with "
             "an independent reader; on acceptance the session expiry handed to the application is compared. Recording wrappers on "
             "validate_on_or_after/validate_before count the bounds actually decided.",
             TRUST, "3/C04"),
@@ -48,7 +48,7 @@ CHECKS = {
             "give an exception or None.",
             TRUST, "3/C06"),
     "C07": ("exploration", "generated policy/declaration/identity workload + independent reference of the release semantics over the returned XML",
-            "Drives Server.create_authn_response and create_attribute_response over policy shapes (default/per-SP, name-only and regex "
+            "Drives Server.create_authn_response and create_attribute_response (with their optional arguments: queried attributes, encryption, PEFIM advice, signing, alias) over policy shapes (default/per-SP, name-only and regex "
             "restrictions, four entity-category modules, fail_on_missing_requested) x SP declarations (required/optional, value constraints, "
             "unsatisfiable) x category layouts x identity shapes; the returned XML is read with the stdlib and every released (attribute, value) "
             "must be in the identity, inside the applicable restrictions/patterns, inside the entity-category entitlement (RELEASE tables read as "
@@ -65,19 +65,19 @@ CHECKS = {
             "Builds IdPs over hand-written SP metadata (several ACS/SLO/ManageNameID endpoints, bindings, indexes, two SPs, colliding and "
             "look-alike URLs) and calls Server.response_args on every combination of issuer (known/other/unknown) x consumer URL (registered, "
             "unregistered, nine near-miss forms, the other SP's) x index (known/unknown/garbage) x protocol binding, and on logout and "
-            "manage-name-id requests; a returned destination must be registered for that issuer and binding, a supplied URL/index is "
+            "manage-name-id requests, and through the whole inbound path (request as text, signed/unsigned, IdP with/without want_authn_requests_signed); a returned destination must be registered for that issuer and binding, a supplied URL/index is "
             "honoured exactly or refused, an unknown issuer never gets a destination.",
             PURE, "3/C09"),
     "C10": ("exploration", "mutation workload on real requests + acceptance predicate on the API boundary + tool-log oracle for signed requests",
-            "Requests of four types made by the real client, signed and unsigned, over Redirect/POST/SOAP, are delivered pristine and mutated "
+            "Requests of seven types (authn, logout, attribute query, manage-name-id, authn query, name-id mapping, artifact resolve) made by the real client, signed and unsigned, over Redirect/POST/SOAP, are delivered pristine and mutated "
             "(addressing, time, schema, wrong root, the C01 signature/reference/ID/wrapping operators, damaged transport encodings) to receivers "
-            "with and without want_authn_requests_signed and to one without an endpoint for the arriving binding. A returned request must have the "
+            "with and without want_authn_requests_signed (IdP and stand-alone attribute authority) and to one without an endpoint for the arriving binding. A returned request must have the "
             "expected type and required attributes, an own or absent Destination, an IssueInstant within a day, a genuine verification of the "
             "request element itself under the issuer's key if it is signed (signed if wanted), and equal the signed original.",
             TRUST, "3/C10"),
     "C11": ("exploration", "hostile-document workload over introspected entry points with audit-hook, parser-construction, tool-log and strace (system-call) monitors",
             "Feeds a catalogue of hostile documents (internal/external/parameter entities, billion laughs, external DTD, XInclude, stylesheet PI, "
-            "UTF-16/BOM, truncations, non-XML) to every *_from_string of every schema module, the generic constructors, the SOAP/pack readers, the "
+            "UTF-16/BOM, text and bytes in declared encodings, truncations, non-XML) to every *_from_string of every schema module, the generic constructors, the SOAP/pack readers, the "
             "metadata loaders and the client/server parse functions in every binding. Monitors: sys.addaudithook (file/socket/urllib/subprocess), "
             "wrappers on all stdlib parser entry points installed before the package is imported (every parser built inside the package must be the "
             "defused one), canary text in results, the xmlsec driver log, and a strace -f system-call log of the whole process tree. A syntactic inventory of parsing call sites measures reach; an "
@@ -86,17 +86,17 @@ CHECKS = {
     "C12": ("exploration", "generated instance trees for every schema class + independent structural comparator and independent parse",
             "For all ~1150 element classes of all schema modules generates instance trees from the class tables (every attribute and child, "
             "cardinalities 1..3, bounded depth, hostile text, foreign children/attributes), serialises, parses back with the library and "
-            "compares with a comparator that does not use SamlBase.__eq__; the second serialisation must be byte-identical and a stdlib parse "
+            "compares with a comparator that does not use SamlBase.__eq__; the second serialisation must be byte-identical, the other serialisers run as history on the same instance without changing it, and a stdlib parse "
             "of the text must show children in table order and the foreign content present.",
             PURE, "3/C12"),
     "C13": ("exploration", "table-driven constraint violation in isolation, oracle on valid_instance() in both directions",
             "For every element class builds the minimal instance satisfying all declared constraints and then violates each declared "
             "constraint in isolation (every required attribute missing/empty, every explicit occurrence bound, every attribute/text of a "
-            "checked simple type with a non-conforming value), at the root and nested below valid parents; violated must raise, satisfied "
+            "checked simple type with a non-conforming value), at the root and nested below valid parents, also on/below elements carrying xsi:nil, xsi:type or foreign attributes; violated must raise, satisfied "
             "must return True (exhaustive over the table entries, sampled over parents).",
             PURE, "3/C13"),
     "C14": ("exploration", "round-trip workload with independent readers (html.parser, urllib.parse, stdlib SOAP reader) + library decoder",
-            "Packages library-made messages of several types (signed and unsigned, hostile content) and arbitrary payloads with "
+            "Packages library-made messages of several types (signed and unsigned, hostile content) and arbitrary payloads (sizes around every power of two up to 1-4 MiB) with "
             "Entity.apply_binding for POST, Redirect, SOAP, PAOS and artifact, hostile RelayStates and destinations with/without a query; an "
             "independent reader must find exactly the expected form fields / URL parameters / SOAP body, and Entity.unravel must return the "
             "original (bytes for POST/Redirect, element-equal for SOAP).",
@@ -113,13 +113,13 @@ CHECKS = {
             "attributes, validUntil past/future/absent on entities and enclosing documents, duplicates across sources) into a MetadataStore and "
             "compares every lookup (service helpers for every role/binding, certs by use, entity_categories, attribute_requirement, "
             "with_descriptor, membership, UnknownSystemEntity vs UnsupportedBinding) with the model; loads validly signed, tampered, wrongly "
-            "certified, unsigned and wrapped metadata through the loader that has a security context; round-trips generated SP/IdP configurations "
+            "certified, unsigned and wrapped metadata through every configuration form of a source and its certificate; round-trips generated SP/IdP configurations "
             "through metadata.entity_descriptor.",
             TRUST, "3/C16"),
     "C17": ("exploration", "marker scan of emitted bytes + decryption with every key through the tool + metamorphic plain/encrypted pairs",
             "For every sign_response x sign_assertion x self-contained x {assertion, PEFIM advice, both} combination the emitted response is "
             "scanned for unique identity markers, attribute names and the NameID, decrypted with all 12 fixture keys (only the addressee's may "
-            "work) and read back by SPs whose first or second key matches; mutants of the signature, time and addressing families are delivered "
+            "work) and read back by SPs whose first or second key matches or whose key is published without a use attribute; mutants of the signature, time and addressing families are delivered "
             "plain and re-encrypted to the same SP (reject(plain) must imply reject(encrypted)); undecryptable content must yield no identity.",
             TRUST, "3/C17"),
     "C18": ("exploration", "reference-model monitor over operation histories (bounded-exhaustive + random), invariants after every step",
@@ -130,11 +130,11 @@ CHECKS = {
             PURE, "3/C18"),
     "C19": ("exploration", "reference-model monitor under a virtual clock, memory and file cache in lock step",
             "Replays every operation sequence up to a bounded depth (set with past/future expiry, reset, delete, clock advance) and long random "
-            "histories (hostile attribute values, subjects differing in one field, file reopen) on Cache and Population, memory and file backed, "
+            "histories (hostile attribute values, subjects differing in one field, file reopen, process time zones other than UTC) on Cache and Population, memory and file backed, "
             "comparing every query result and exception class with a dictionary model after each step.",
             PURE, "3/C19"),
     "C20": ("fault_enumeration", "fault-injecting external tool (plan via environment) + offline oracle over the tool event log",
-            "Enumerates fault plans (site kind x first/second/every invocation x 18 verification faults, 10 sign/encrypt/decrypt faults, tool "
+            "Enumerates fault plans (site kind x first/second/every invocation x 18 verification faults + 36 byte-exact garbled diagnostics, 10 sign/encrypt/decrypt faults, tool "
             "missing / not executable / a directory) over response, assertion, both, request and in-ciphertext verification, statement signing, "
             "assertion encryption and decryption with the first or second key, on valid and tampered messages. The driver marks injected events; "
             "an accepted message needs a genuine un-faulted OK per required level, a tampered message is never accepted, an identity needs a "
